@@ -9,7 +9,7 @@ LEVEL = "model_checking"
 CONFIGS = ["msp430", "68000", "avr8", "propeller", "mips"]
 ADDRS = [0, 0x10, 0xff, 0x100, 0xfffe, 0x10000]
 VALUES = [[0x12], [0xff, 0], [0x1234], [0x89abcdef], [-1], [0x12, 0x34, 0x56]]
-SPELL = ["dec", "0x", "h"]
+SPELL = ["dec", "0x", "h", "0X", "H"]
 PRELOAD = {0x20: [0xa0, 0xa1, 0xa2, 0xa3, 0xa4, 0xa5, 0xa6, 0xa7], 0x1000: [0xb0, 0xb1, 0xb2, 0xb3]}
 
 
@@ -18,6 +18,10 @@ def spell(a, how):
         return str(a)
     if how == "0x":
         return "0x%x" % a
+    if how == "0X":
+        return "0x%X" % a                       # upper-case digits
+    if how == "H":
+        return ("%Xh" % a) if ("%X" % a)[0].isdigit() else ("0%Xh" % a)
     return ("%xh" % a) if "%x" % a and ("%x" % a)[0].isdigit() else ("0%xh" % a)
 
 
@@ -28,13 +32,14 @@ def alphabet(full):
             for vi, vals in enumerate(VALUES):
                 if not full and (ai + vi + ci) % 3:
                     continue
-                A.append((cmd, a, SPELL[(ai + vi + ci) % 3], tuple(vals)))
+                A.append((cmd, a, SPELL[(ai * 2 + vi + ci) % 5], tuple(vals)))
     return A
 
 
 def render(cmd):
     name, a, sp, vals = cmd
-    return "%s %s %s" % (name, spell(a, sp), " ".join(("0x%x" % v) if v >= 0 else str(v) for v in vals))
+    fmt = "0x%X" if sp in ("0X", "H") else "0x%x"
+    return "%s %s %s" % (name, spell(a, sp), " ".join((fmt % v) if v >= 0 else str(v) for v in vals))
 
 
 # ------------------------------------------------------------------ model
@@ -211,6 +216,56 @@ def fetch_case(cfg):
     return None
 
 
+
+# ------------------------------------------------------------------ disasm without a range walks every loaded page
+
+WALK_SHAPES = [(0xff00, 384), (0xfffc, 8), (0xfff0, 0x30), (0x10, 0x20), (0x1ff80, 0x10100), (0xfe00, 0x20400)]
+WALK_CPUS = ["msp430", "z80", "mips", "avr8"]
+
+
+def hex_image(mem):
+    lines, base = [], None
+    addrs = sorted(mem)
+    i = 0
+    while i < len(addrs):
+        a = addrs[i]
+        run = [mem[a]]
+        while i + 1 < len(addrs) and addrs[i + 1] == addrs[i] + 1 and len(run) < 16 and ((addrs[i + 1]) & 0xffff) != 0:
+            i += 1
+            run.append(mem[addrs[i]])
+        i += 1
+        if base != a >> 16:
+            base = a >> 16
+            raw = bytes([2, 0, 0, 4, base >> 8, base & 0xff])
+            lines.append(":" + raw.hex().upper() + "%02X" % ((-sum(raw)) & 0xff))
+        raw = bytes([len(run), (a >> 8) & 0xff, a & 0xff, 0] + run)
+        lines.append(":" + raw.hex().upper() + "%02X" % ((-sum(raw)) & 0xff))
+    return "\n".join(lines) + "\n:00000001FF\n"
+
+
+def walk_case(cfg, shape, mode):
+    """every 256-byte block of a loaded image must show up in a range-less disassembly (`disasm` / -disasm)"""
+    c = cpus.cpu(cfg)
+    start, n = shape
+    mem = {start + i: 0 for i in range(n)}
+    files = {"img.hex": hex_image(mem)}
+    if mode == "cli":
+        o = asm.util("", ["-" + cfg, "-disasm", "img.hex"], files=files, cpu=20, out_cap=64 << 20)
+    else:
+        o = asm.util("disasm\nquit\n", ["-" + cfg, "img.hex"], files=files, cpu=20, out_cap=64 << 20)
+    if o.kind != "ok":
+        return "abnormal", "naken_util ended with %s (status %s)" % (o.kind, o.status)
+    listed = set()
+    for m in re.finditer(r"^\s*0x([0-9a-f]+):", o.out, re.M):
+        listed.add((int(m.group(1), 16) * c["bpa"]) >> 8)
+    want = {a >> 8 for a in mem}
+    missing = sorted(want - listed)
+    if missing:
+        return "walk", "the image occupies 0x%x..0x%x; no line of the disassembly lies in the 256-byte block at 0x%x (%d of %d blocks missing)" % (
+            start, start + n - 1, missing[0] << 8, len(missing), len(want))
+    return None
+
+
 def cli_options():
     """-address / -set_pc on a raw binary"""
     out = []
@@ -274,6 +329,16 @@ def run(ctx):
         if v:
             kinds[v[0]] = kinds.get(v[0], 0) + 1
             ctx.violation({"fetch": cfg}, v[0], "[%s] %s" % (cfg, v[1]), {"fetch": cfg})
+    for cfg in WALK_CPUS:
+        for shape in (WALK_SHAPES[:4] if q else WALK_SHAPES):
+            for mode in ("cli", "session"):
+                v = walk_case(cfg, shape, mode)
+                transitions += 1
+                states.add(("walk", cfg, shape, mode, bool(v)))
+                if v:
+                    kinds[v[0]] = kinds.get(v[0], 0) + 1
+                    ctx.violation({"walk": cfg, "shape": list(shape), "mode": mode}, v[0], "[%s %s] %s" % (cfg, "-disasm" if mode == "cli" else "disasm", v[1]),
+                                  {"walk": cfg, "shape": list(shape), "mode": mode})
     for kind, detail in cli_options():
         kinds[kind] = kinds.get(kind, 0) + 1
         ctx.violation({"cli": detail}, kind, detail, {"cli": True})
@@ -290,6 +355,9 @@ def run(ctx):
 def replay(rec):
     if "fetch" in rec:
         v = fetch_case(rec["fetch"])
+        return bool(v), str(v)
+    if "walk" in rec:
+        v = walk_case(rec["walk"], tuple(rec["shape"]), rec["mode"])
         return bool(v), str(v)
     if "cli" in rec:
         v = cli_options()
